@@ -27,8 +27,8 @@ def _variants(pid):
     for p in sorted(glob.glob(os.path.join(VERIF, 'selftest', 'mutants', pid + '-*.diff'))):
         out.append((os.path.basename(p)[:-5], p, True))
     # behaviour-preserving refactorings of the code this property is anchored in: must NOT be reported
-    for p in sorted(glob.glob(os.path.join(VERIF, 'selftest', 'benign', pid + '-*.diff'))):
-        out.append(('benign:' + os.path.basename(p)[:-5], p, False))
+    for p in sorted(glob.glob(os.path.join(VERIF, 'selftest', 'benign', pid + '-*.diff'))) + sorted(glob.glob(os.path.join(VERIF, 'selftest', 'benign', 'r1', pid + '-*.diff'))):
+        out.append(('benign:' + os.path.relpath(p, os.path.join(VERIF, 'selftest', 'benign'))[:-5], p, False))
     return out
 
 
